@@ -378,7 +378,11 @@ func taMutate(r *rng, text string, s *sink) string {
 		case 3: // drop the colon of a comment
 			lines[li] = strings.Replace(l, ":", "", 1)
 		case 4: // comment with no value
-			lines[li] = pick(r, []string{"# End Point", "# Vehicle", "# Lap 3", "# Lap", "# ", "#", "# :", "# Lap x: 1", "# Lap 1: x", "# End Point: 1, 2 @", "# Lap -1: 00:00:01.000", "# Lap 0: 1:2:3", "# Lap 99999999999999999999: 00:00:00.000"})
+			lines[li] = pick(r, []string{"# End Point", "# Vehicle", "# Lap 3", "# Lap", "# ", "#", "# :", "# Lap x: 1", "# Lap 1: x", "# End Point: 1, 2 @", "# Lap -1: 00:00:01.000", "# Lap 0: 1:2:3", "# Lap 99999999999999999999: 00:00:00.000",
+				// lap times whose components are signed, oversized or have the wrong number of digits
+				"# Lap 0: 00:-2:03.202", "# Lap 0: 00:02:03.-202", "# Lap 0: -1:02:03.202", "# Lap 0: 00:02:-3.202",
+				"# Lap 0: 9000000:02:03.202", "# Lap 0: 00:02:03.2020", "# Lap 0: 00:02:03", "# Lap 0: 00:02:03.", "# Lap 0: +1:+2:+3.+4",
+				"# Lap 0: 00:61:61.000", "# Lap 0: 0:0:0.0", "# End Point: -33.803610, 150.870900  @ 271.50 deg", "# End Point: 33.8, -150.8  @ -10 deg"})
 		case 5: // blank line
 			lines = append(lines[:li+1], append([]string{""}, lines[li+1:]...)...)
 		case 6: // stray quote
